@@ -13,6 +13,7 @@ import (
 	_ "verif/mc/drivers/c09"
 	_ "verif/mc/drivers/c10"
 	_ "verif/mc/drivers/c11"
+	_ "verif/mc/drivers/c12"
 	_ "verif/mc/drivers/c13"
 	_ "verif/mc/drivers/c14"
 	_ "verif/mc/drivers/c15"
